@@ -31,11 +31,18 @@ def base_disk(rng, fl):
     return asides
 
 
-def mutate_disk(rng, asides, fl):
+DISK_KINDS = ["cycle2", "selflink", "longcycle", "first_oob", "slash_name", "dotdot", "nul_name", "hi_name", "absurd_len", "flip_bat", "random_table",
+              "random_catalog", "truncate", "random_bytes", "dangling", "shared", "dot_name", "slash_noblock", "slash_lateslot", "nul_noblock",
+              "slash_ext", "nul_ext", "dotdot_ext"]
+TAPE_KINDS = ["slash", "dotdot", "nul", "nonutf8", "badtype", "truncated", "eof_first", "data_first", "short_leader", "random", "hugelen", "abs",
+              "slash_ext", "nul_ext"]
+
+
+def mutate_disk(rng, asides, fl, kind=None):
     """-> (raw bytes, label)"""
-    kind = rng.choice(["cycle2", "selflink", "longcycle", "first_oob", "slash_name", "dotdot", "nul_name", "hi_name", "absurd_len",
+    kind = kind or rng.choice(["cycle2", "selflink", "longcycle", "first_oob", "slash_name", "dotdot", "nul_name", "hi_name", "absurd_len",
                        "flip_bat", "random_table", "random_catalog", "truncate", "random_bytes", "dangling", "shared", "dot_name",
-                       "slash_noblock", "slash_noblock", "slash_lateslot", "nul_noblock"])
+                       "slash_noblock", "slash_noblock", "slash_lateslot", "nul_noblock", "slash_ext", "slash_ext", "nul_ext", "dotdot_ext"])
     sides = [D.py_render(a) for a in asides]
     s = [bytearray(x) for x in sides[0]]
     bat = s[20 * 16 + 1]
@@ -69,6 +76,15 @@ def mutate_disk(rng, asides, fl):
         if kind == "slash_name" and rng.random() < 0.5:
             sec[off:off + 8] = b"/tmp/ev "
             sec[off + 8:off + 11] = b"/x " if rng.random() < 0.5 else b"il "
+    elif kind in ("slash_ext", "nul_ext", "dotdot_ext") and f:
+        # the hostile character sits in the extension field only: `. /XY` reads `./XY`, `..` + `/X` reads `../X`
+        sec, off = cat_entry(f["slot"])
+        name, ext = {"slash_ext": rng.choice([(b".       ", b"/XY"), (b"..      ", b"/X "), (b"GOOD    ", b"/.."), (b"A       ", b"B/C")]),
+                     "nul_ext": (b"GOOD    ", b"A\x00B"), "dotdot_ext": (b"        ", b".  ")}[kind]
+        sec[off:off + 8] = name
+        sec[off + 8:off + 11] = ext
+        if rng.random() < 0.3:
+            sec[off + 13] = rng.choice([0, 40, 41])   # … on an entry that owns no block
     elif kind in ("slash_noblock", "nul_noblock") and f:
         # a live entry that owns no block (first block reserved or free) AND carries a hostile name
         sec, off = cat_entry(f["slot"])
@@ -106,10 +122,16 @@ def mutate_disk(rng, asides, fl):
     return raw, kind
 
 
-def hostile_tape(rng):
-    kind = rng.choice(["slash", "dotdot", "nul", "nonutf8", "badtype", "truncated", "eof_first", "data_first", "short_leader", "random", "hugelen", "abs"])
+def hostile_tape(rng, kind=None):
+    kind = kind or rng.choice(["slash", "dotdot", "nul", "nonutf8", "badtype", "truncated", "eof_first", "data_first", "short_leader", "random", "hugelen", "abs",
+                       "slash_ext", "slash_ext", "nul_ext"])
     name = {"slash": b"../ESC  ", "dotdot": b"..      ", "nul": b"A\x00B     ", "nonutf8": b"\xff\xfeNAME  ", "abs": b"/tmp/ev "}.get(kind, b"GOOD    ")
     ext = b"   " if kind == "dotdot" else (b"il " if kind == "abs" else b"BIN")
+    if kind == "slash_ext":
+        # the separator sits in the extension field only
+        name, ext = rng.choice([(b".       ", b"/XY"), (b"..      ", b"/X "), (b"GOOD    ", b"/.."), (b"A       ", b"B/C")])
+    if kind == "nul_ext":
+        ext = b"A\x00B"
     blocks = [(16, 0, name + ext + bytes([2, 0, 0]), b""), (16, 1, b"payload", b""), (16, 0xFF, b"", b"")]
     if kind == "badtype":
         blocks.insert(1, (16, rng.choice([2, 7, 0x80, 0xFE]), b"zz", b""))
@@ -130,23 +152,26 @@ def hostile_tape(rng):
     return raw + bytes(max(0, pad - len(raw))), kind
 
 
-def check_confined(res, stream, case, r, arena, before, allowed_prefixes, archive_rel):
-    """files created/modified outside the allowed directories, by observation (tree) and by intent (audit log)"""
+def check_confined(res, stream, case, r, arena, before, allowed_prefixes, archive_rel, may_create=()):
+    """files created/modified outside the allowed directories, by observation (tree) and by intent (audit log);
+    may_create: directories that may come into existence (the --into target) without anything else being written in them"""
     after = P.tree(arena)
     bad = []
     for k in set(before) | set(after):
         if before.get(k) != after.get(k):
-            if k.rstrip("/") in [a.rstrip("/") for a in allowed_prefixes]:
+            if k.rstrip("/") in [a.rstrip("/") for a in allowed_prefixes] or (k.endswith("/") and k in may_create and after.get(k) is None and k in after):
                 continue
             if not any(k.startswith(a) for a in allowed_prefixes):
                 bad.append(k)
     for kind, path in r["events"]:
+        if kind == "X":
+            continue
         if kind == "W" and os.path.isdir(path):
             continue  # opening a directory for writing always fails (IsADirectoryError): nothing is created or modified
         rel = os.path.relpath(os.path.realpath(path), os.path.realpath(arena))
         if rel.startswith(".."):
             bad.append("OUTSIDE-ARENA:" + path)
-        elif not any((rel + "/").startswith(a) or rel.startswith(a) for a in allowed_prefixes):
+        elif not any((rel + "/").startswith(a) or rel.startswith(a) for a in allowed_prefixes) and not (kind != "W" and (rel + "/") in may_create):
             bad.append("ATTEMPT:" + rel)
     if bad:
         res.violate(stream, "a file was created or modified outside the destination directory", case, sorted(set(bad))[:6], {"clause": "confined"})
@@ -167,10 +192,12 @@ def one_disk(ctx, res, job):
     tool = "moto_sdar" if fl == "sd" else "moto_fdar"
     out = {}
     before = P.tree(arena)
-    out["list"] = P.run_sandboxed(tool, ["-t", "-v", "h." + fl], work, os.path.join(ctx.fresh_dir(), "log"))
+    # the verbosity of the real runs varies with the case (the model's report is compared for status only)
+    quiet_list = (len(raw) + len(label)) % 3 == 0
+    out["list"] = P.run_sandboxed(tool, ["-t"] + ([] if quiet_list else ["-v"]) + ["h." + fl], work, os.path.join(ctx.fresh_dir(), "log"))
     out["before"] = before
     out["after_list"] = P.tree(arena)
-    args = ["-x"] + (["--into", into] if into else []) + ["h." + fl]
+    args = ["-x"] + (["-v"] if (len(raw) + len(label)) % 2 == 0 else []) + (["--into", into] if into else []) + ["h." + fl]
     out["extract"] = P.run_sandboxed(tool, args, work, os.path.join(ctx.fresh_dir(), "log2"))
     out["arena"] = arena
     return job, out
@@ -184,7 +211,8 @@ def run(ctx, res):
     jobs = []
     for i in range(ctx.n(48, 1500)):
         fl = rng.choice(["fd", "fd", "fd", "sd"])
-        raw, label = mutate_disk(rng, base_disk(rng, fl), fl)
+        # every kind of mutation at least once (twice in the thorough tier: both flavours), then at random
+        raw, label = mutate_disk(rng, base_disk(rng, fl), fl, kind=DISK_KINDS[i] if i < len(DISK_KINDS) else None)
         jobs.append((fl, raw, label, rng.choice([None, None, "out"])))
     results = P.parallel(lambda j: one_disk(ctx, res, j), jobs)
     blobs = D.Blobs(ctx)
@@ -206,8 +234,9 @@ def run(ctx, res):
         if out["before"] != out["after_list"]:
             res.violate("disk_mutations", "list modified the file system", case, None, {"clause": "list_readonly"})
         target = "work/out/" if into else "work/"
-        allowed = [f"{target}side{i}/" for i in range(4)] + ([target] if into else [])
-        check_confined(res, "disk_mutations", case, out["extract"], out["arena"], out["after_list"], allowed, "work/h." + fl)
+        allowed = [f"{target}side{i}/" for i in range(4)]
+        check_confined(res, "disk_mutations", case, out["extract"], out["arena"], out["after_list"], allowed, "work/h." + fl,
+                       may_create=[target] if into else [])
         # model: status class and written files
         ml, mx = D.parse_disk_outcome(model_ans[2 * k]), D.parse_disk_outcome(model_ans[2 * k + 1])
         for act, mo in (("list", ml), ("extract", mx)):
@@ -216,7 +245,7 @@ def run(ctx, res):
                 continue
             st.compared += 1
             r = out[act]
-            impl = "ok0" if r["rc"] == 0 else exc_name(r["err"])
+            impl = "ok0" if r["rc"] == 0 else next((p for k, p in r["events"] if k == "X"), exc_name(r["err"]))
             if r["killed"]:
                 impl = "killed"
             if impl != mo["status"]:
@@ -230,7 +259,7 @@ def run(ctx, res):
     res.sample({"mutation": jobs[0][2], "flavour": jobs[0][0]})
 
     # tapes
-    tjobs = [hostile_tape(rng) + (rng.choice([None, "out"]),) for _ in range(ctx.n(80, 1500))]
+    tjobs = [hostile_tape(rng, kind=TAPE_KINDS[i] if i < len(TAPE_KINDS) else None) + (rng.choice([None, "out"]),) for i in range(ctx.n(80, 1500))]
 
     def one_tape(job):
         raw, label, into = job
@@ -242,9 +271,9 @@ def run(ctx, res):
         with open(os.path.join(work, "h.k7"), "wb") as f:
             f.write(raw)
         before = P.tree(arena)
-        rl = P.run_sandboxed("moto_tar", ["-t", "-v", "h.k7"], work, os.path.join(ctx.fresh_dir(), "log"))
+        rl = P.run_sandboxed("moto_tar", ["-t"] + ([] if len(raw) % 3 == 0 else ["-v"]) + ["h.k7"], work, os.path.join(ctx.fresh_dir(), "log"))
         mid = P.tree(arena)
-        rx = P.run_sandboxed("moto_tar", ["-x"] + (["--into", into] if into else []) + ["h.k7"], work, os.path.join(ctx.fresh_dir(), "log2"))
+        rx = P.run_sandboxed("moto_tar", ["-x"] + (["-v"] if len(label) % 2 == 0 else []) + (["--into", into] if into else []) + ["h.k7"], work, os.path.join(ctx.fresh_dir(), "log2"))
         return job, {"list": rl, "extract": rx, "before": before, "mid": mid, "arena": arena}
 
     st = res.stream("tape_mutations")
@@ -270,10 +299,51 @@ def run(ctx, res):
                 continue
             st.compared += 1
             r = out[act]
-            impl = "ok0" if r["rc"] == 0 else exc_name(r["err"])
+            impl = "ok0" if r["rc"] == 0 else next((p for k, p in r["events"] if k == "X"), exc_name(r["err"]))
             if impl != mo["status"]:
                 res.disagree("tape_mutations", dict(case, action=act), mo["status"], impl + " | " + r["err"][-160:])
     res.sample({"tape_mutation": tjobs[0][1]})
+    scaling(ctx, res)
+
+
+def scaling(ctx, res):
+    """"a bound proportional to the archive size": the CPU time of list and extract on a tape of 2n bytes is compared with the
+    time on n bytes, for tapes far larger than 21504 bytes made of many small blocks (a reader that copies the rest of the tape at
+    every block is quadratic: ratio 4) and for the largest chains a disk can hold"""
+    st = res.stream("scaling")
+
+    def tape_of(nblocks):
+        # a few files, the first one made of very many small data blocks: the number of blocks, not the number of files, drives
+        # the reader (extraction then writes three files only)
+        blocks = [(16, 0, b"BIG     BIN" + bytes([2, 0, 0]), b"")] + [(16, 1, bytes([i % 251]) * 5, b"") for i in range(nblocks)] + [(16, 0xFF, b"", b"")]
+        for i in range(2):
+            blocks += [(16, 0, b"F%07d" % i + b"BIN" + bytes([2, 0, 0]), b""), (16, 1, b"x" * 40, b""), (16, 0xFF, b"", b"")]
+        return T.py_render(b"", blocks)
+
+    def cpu(tool, args, work):
+        r = P.run_sandboxed(tool, args, work, os.path.join(ctx.fresh_dir(), "log"), cpu_s=120, timeout=400)
+        return r
+
+    n = 30000 if not ctx.thorough else 60000
+    times = {}
+    for k in (n, 2 * n):
+        raw = tape_of(k)
+        for act, args in (("list", ["-t", "big.k7"]), ("extract", ["-x", "--into", "out", "big.k7"])):
+            work = ctx.fresh_dir()
+            with open(os.path.join(work, "big.k7"), "wb") as f:
+                f.write(raw)
+            r = cpu("moto_tar", args, work)
+            times[(act, k)] = (r["cpu"] if r["cpu"] is not None else r["wall"], r["killed"], len(raw))
+    for act in ("list", "extract"):
+        t1, k1, b1 = times[(act, n)]
+        t2, k2, b2 = times[(act, 2 * n)]
+        case = {"action": act, "bytes": [b1, b2], "cpu": [round(t1, 2), round(t2, 2)]}
+        st.see(case, nontrivial=True)
+        res.count(f"scaling:{act}:ratio={min(9, round(t2 / max(t1, 0.05)))}")
+        # interpreter start-up is about 0.1 s: a linear reader stays far below 1 s for these sizes; quadratic growth shows as ratio ~4
+        if k1 or k2 or (t2 > 1.5 and t2 > 3.2 * max(t1, 0.3)):
+            res.violate("scaling", f"{act} of a tape twice as long takes far more than twice the time (not proportional to the archive size)", case,
+                        {"cpu_n": t1, "cpu_2n": t2}, {"clause": "terminates", "action": act})
 
 
 def check_confined_tape(res, case, out, target):
@@ -286,6 +356,8 @@ def check_confined_tape(res, case, out, target):
                 continue
             bad.append(rel)
     for kind, path in out["extract"]["events"]:
+        if kind == "X":
+            continue
         if kind == "W" and os.path.isdir(path):
             continue
         rel = os.path.relpath(os.path.realpath(path), os.path.realpath(out["arena"]))
